@@ -1,7 +1,7 @@
 #!/bin/bash
 # seedcheck.sh <PROP> <mutA|mutB> : confirm a seeded change in a scratch worktree and file it under /verif/seeded/
 export GOFLAGS=-mod=mod GOPROXY=off GOSUMDB=off GOTOOLCHAIN=local
-P=$1; M=$2; SRC=/tmp/wt/$P.out; WT=/tmp/sc/$P$M
+P=$1; M=$2; SRC=${SRCBASE:-/tmp/wt}/$P.out; WT=/tmp/sc/$P$M
 rm -rf $WT; mkdir -p /tmp/sc; git -C /repo worktree prune; git -C /repo worktree add --detach $WT HEAD >/dev/null 2>&1 || { echo "worktree failed"; exit 2; }
 cleanup() { git -C /repo worktree remove --force $WT >/dev/null 2>&1; rm -rf $WT; }
 demo=$SRC/${M}_demo_test.go
